@@ -558,6 +558,11 @@ async def reload_workflow(schd: 'Scheduler', reload_global: bool = False):
         # give commands time to complete
         sleep(1)  # give any remove-init's time to complete
 
+    # Tasks triggered just before the reload have been submitted by the loop
+    # above (but were not taken off this list because a reload was pending);
+    # they must not be submitted again after the reload:
+    schd.pool.tasks_to_trigger_now = set()
+
     try:
         # Back up the current config in case workflow reload errors
         global_cfg_old = glbl_cfg()
